@@ -151,12 +151,14 @@ def _withdraw_k0(ctx):
     return ob_release(0, 1, real_kernel=True, only={'release:fails', 'release:share', 'release:prev', 'release:solvent', 'release:removed'})(ctx)
 
 
-def _withdraw_many(ctx):
-    """an exit through many matured batches at once (12 batches of the plainest shape, a claim of the holder in each): every one
-    of them is released and paid in the same withdrawal — no page size or cap of a helper applies to the release loop"""
-    from checks.c01 import ob_release, plain_batches
-    return ob_release(12, 0, light=True, other=False, shape=plain_batches,
-                      only=('release:released', 'release:last', 'release:share'))(ctx)
+def _withdraw_many(k):
+    def ob(ctx):
+        from checks.c01 import ob_release, plain_batches, plain_fixed
+        return ob_release(k, 0, light=True, other=False, shape=plain_batches, fixed=plain_fixed(k),
+                          only=('release:released', 'release:last', 'release:share'))(ctx)
+    ob.__doc__ = ('an exit through many matured batches at once (%d batches of the plainest shape, a claim of the holder in each): every one '
+                  'of them is released and paid in the same withdrawal - no page size or cap of a helper applies to the release loop' % k)
+    return ob
 
 
 def _index_update_frame(ctx):
@@ -167,7 +169,7 @@ def _index_update_frame(ctx):
     return ob_hub_update(1)(ctx)
 
 
-OBLIGATIONS = [('withdraw_matured_with_pending_requests', _withdraw_immature), ('withdraw_through_12_matured_batches', _withdraw_many), ('index_update_leaves_exits_alone', _index_update_frame), ('withdraw_without_release', _withdraw_k0), ('withdraw_released_claim_when_next_batch_matures', _withdraw_old), ('unbond_bsei_d1', ob_unbond('b', 1)), ('unbond_stsei_d1', ob_unbond('s', 1)), ('unbond_bsei_d2', ob_unbond('b', 2)),
+OBLIGATIONS = [('withdraw_matured_with_pending_requests', _withdraw_immature), ('withdraw_through_12_matured_batches', _withdraw_many(12)), ('withdraw_through_35_matured_batches', _withdraw_many(35)), ('index_update_leaves_exits_alone', _index_update_frame), ('withdraw_without_release', _withdraw_k0), ('withdraw_released_claim_when_next_batch_matures', _withdraw_old), ('unbond_bsei_d1', ob_unbond('b', 1)), ('unbond_stsei_d1', ob_unbond('s', 1)), ('unbond_bsei_d2', ob_unbond('b', 2)),
                ('unbond_stsei_d2', ob_unbond('s', 2)), ('independent_hub', ob_independent_hub), ('independent_tokens', ob_independent_tokens)]
 
 
